@@ -22,7 +22,10 @@ RULE = ("enumerated: every multiset of 1-5 (quick) / 1-7 (thorough) pack revisio
         "repositories filled by 1-25 write groups (fetch of k revisions, signature "
         "only pack, two writers inserting the same revisions) with autopack "
         "switched off for a generated subset of the groups so that arbitrary pack "
-        "multisets reach the final, unmodified write group. Non-trivial: the "
+        "multisets reach the final, unmodified write group; one case in three "
+        "keeps a single long-lived repository object for all its write groups; "
+        "inside the watched group the counts and the distribution handed to the "
+        "planner are compared with the packs' own counts and key_count(). Non-trivial: the "
         "autopack trigger is taken (pack count above the digit sum). Distinct by "
         "construction (enumeration) / by case hash.")
 ASSUMPTIONS = [
@@ -210,10 +213,20 @@ class _Watch:
         self.calls += 1
         existing = list(existing_packs)
         total = self.total = sum(pack_distribution)
-        plan = self._orig(existing_packs, pack_distribution)
         info = dict(self.info)
         info["in-vivo"] = sorted((c for c, _p in existing), reverse=True)
         info["distribution-total"] = total
+        # what _do_autopack hands to the planner: every pack with its own
+        # revision count, and the distribution of the repository's total
+        for c, p in existing:
+            check(c == p.get_revision_count() and c > 0,
+                  "C07/planner-fed-count-differs-from-pack-revision-count",
+                  [info, c, p.get_revision_count()])
+        key_count = self.coll.revision_index.combined_index.key_count()
+        check(total == key_count,
+              "C07/planner-fed-distribution-of-another-total",
+              [info, key_count])
+        plan = self._orig(existing_packs, pack_distribution)
         op = check_plan(existing, total, plan, info)
         if op is not None:
             self.taken = True
@@ -228,43 +241,70 @@ def _state(repo):
     return counts, total
 
 
-def _fetch(url, src, tip, suppress, info):
-    from breezy import repository
-    repo = repository.Repository.open(url)
+class _Session:
+    """Hands out the repository object for a write group: a fresh one per
+    group, or one long-lived object for the whole case (stale in-memory pack
+    names / indices after an autopack would show there)."""
+
+    def __init__(self, url, reuse):
+        self.url = url
+        self.reuse = reuse
+        self._repo = None
+
+    def repo(self):
+        from breezy import repository
+        if not self.reuse:
+            return repository.Repository.open(self.url)
+        if self._repo is None:
+            self._repo = repository.Repository.open(self.url)
+        return self._repo
+
+
+def _instrument(coll, suppress, info):
+    if suppress:
+        coll.autopack = lambda: None
+        return None
+    return _Watch(coll, info)
+
+
+def _restore(coll):
+    coll.__dict__.pop("autopack", None)
+    coll.__dict__.pop("plan_autopack_combinations", None)
+
+
+def _fetch(session, src, tip, suppress, info):
+    repo = session.repo()
     repo.lock_write()
     try:
         coll = repo._pack_collection
-        watch = None
-        if suppress:
-            coll.autopack = lambda: None
-        else:
-            watch = _Watch(coll, info)
-        repo.fetch(src, _rev(tip))
+        watch = _instrument(coll, suppress, info)
+        try:
+            repo.fetch(src, _rev(tip))
+        finally:
+            _restore(coll)
     finally:
         repo.unlock()
     return watch
 
 
-def _sign(url, revs, suppress, info, salt=0):
-    from breezy import repository
-    repo = repository.Repository.open(url)
+def _sign(session, revs, suppress, info, salt=0):
+    repo = session.repo()
     repo.lock_write()
     try:
         coll = repo._pack_collection
-        watch = None
-        if suppress:
-            coll.autopack = lambda: None
-        else:
-            watch = _Watch(coll, info)
-        repo.start_write_group()
+        watch = _instrument(coll, suppress, info)
         try:
-            for r in revs:
-                repo.add_signature_text(_rev(r), b"signature %d of r%d" % (
-                    salt, r))
-        except BaseException:
-            repo.abort_write_group()
-            raise
-        repo.commit_write_group()
+            repo.start_write_group()
+            try:
+                for r in revs:
+                    repo.add_signature_text(_rev(r), b"signature %d of r%d" % (
+                        salt, r))
+            except BaseException:
+                repo.abort_write_group()
+                raise
+            repo.commit_write_group()
+        finally:
+            _restore(coll)
     finally:
         repo.unlock()
     return watch
@@ -363,6 +403,7 @@ def run_e2e(case, env):
     taken = 0
     dups = 0
     info = {"format": fmtname, "steps": case["steps"]}
+    session = _Session(d, bool(case.get("reuse")))
     steps = list(case["steps"])
     for n, step in enumerate(steps):
         what, arg, suppress = step
@@ -376,7 +417,7 @@ def run_e2e(case, env):
             if k <= 0:
                 continue
             have += k
-            watch = _fetch(d, src, have - 1, suppress, sinfo)
+            watch = _fetch(session, src, have - 1, suppress, sinfo)
         elif what == "sign":
             if have == 0:
                 continue
@@ -385,7 +426,7 @@ def run_e2e(case, env):
                 continue
             revs = [unsigned[arg % len(unsigned)]]
             signed.update(revs)
-            watch = _sign(d, revs, suppress, sinfo, salt=n)
+            watch = _sign(session, revs, suppress, sinfo, salt=n)
         else:
             k = min(arg, N_REVS - have)
             if k <= 0:
@@ -400,6 +441,8 @@ def run_e2e(case, env):
         if watch is not None and watch.taken:
             taken += 1
     suffix = "+duplicated-revisions" if dups else ""
+    if case.get("reuse"):
+        suffix += "+long-lived-repository-object"
     if taken >= 2:
         return ok("e2e/several-autopacks" + suffix)
     if taken == 1:
@@ -441,7 +484,8 @@ def gen_e2e(draw):
                                     budget), False])
     else:
         steps.append(["sign", 0, False])
-    return {"format": fmt, "steps": steps}
+    return {"format": fmt, "steps": steps,
+            "reuse": draw(st.sampled_from([False, False, True]))}
 
 
 def kinds(tier):
@@ -451,5 +495,5 @@ def kinds(tier):
         Kind("generated-counts", run_counts, strategy=gen_counts(),
              examples={"quick": 5000, "thorough": 200000}),
         Kind("end-to-end", run_e2e, strategy=gen_e2e(),
-             examples={"quick": 64, "thorough": 1500}),
+             examples={"quick": 128, "thorough": 1500}),
     ]
